@@ -188,6 +188,7 @@ class EF(T.Emit):
             if name == 'predicate': return '(predicate %s)' % self.expr(recv)
             if name == 'flip': return '(flip %s)' % self.expr(recv)
             if name == 'intersect': return '(bs_intersect %s %s)' % (self.expr(recv), self.expr(args[0]))
+            if name in ('max', 'min') and self.ty(recv) == 'bound': return '(b%s %s %s)' % (name, self.expr(recv), self.expr(args[0]))
             if name == 'cmp':
                 t = self.ty(recv)
                 f = {'N': 'N.compare', 'idents': 'lex icmp', 'version': 'vcmp', 'bound': 'bcmp'}.get(t)
@@ -391,7 +392,7 @@ def fn(src, header_re, env, panics=False):
     e = EF(env, panics, strings)
     return e.stmts(stmts, tail, None)
 
-LIB = '/repo/src/lib.rs'; RNG = '/repo/src/range.rs'
+LIB = os.path.join(os.environ.get('VERIF_REPO', '/repo'), 'src', 'lib.rs'); RNG = os.path.join(os.environ.get('VERIF_REPO', '/repo'), 'src', 'range.rs')
 SPLIT = 'repeat match goal with |- context [if ?c then _ else _] => destruct c eqn:? end'
 def defs():
     V = {'self': 'version', 'other': 'version'}
